@@ -1180,7 +1180,7 @@ func (c *Ctx) PhiUnder(fn *ssa.Function, name string) []string {
 				if !ok {
 					break
 				}
-				if ph.Comment == name && pi >= 0 {
+				if prov.CanonLocal(fn, ph.Comment) == name && pi >= 0 {
 					set[prov.Of(ph.Edges[pi])] = true
 				}
 			}
